@@ -97,8 +97,8 @@ pub fn parse_sexagesimal(angle: &str) -> f64 {
 
     // Handle NSEW indicators
     let mut postfix_sign = 1.0;
-    if "wWsSeEnN".contains(&angle[n - 1..]) {
-        if "wWsS".contains(&angle[n - 1..]) {
+    if angle.ends_with(['w', 'W', 's', 'S', 'e', 'E', 'n', 'N']) {
+        if angle.ends_with(['w', 'W', 's', 'S']) {
             postfix_sign = -1.0;
         }
         angle = &angle[..n - 1];
